@@ -8,7 +8,7 @@
    SetDict / Eval, any length) on a model constructed with n0 parameters; [strip ops] is the same history with
    every evaluation removed, i.e. a freshly constructed model with the same final definition and values. *)
 From Coq Require Import List String ZArith.
-From PV Require Import Canary CanaryProofs Gen.CanaryGen.
+From PV Require Import Canary CanaryProofs CanaryComp Gen.CanaryGen.
 Import ListNotations.
 Open Scope string_scope.
 
@@ -92,3 +92,32 @@ Theorem C08_current_code : forall n0 ops e, reg facts e ->
   snd (eval facts (run facts (init facts n0) ops) e) = snd (eval facts (run facts (init facts n0) (strip ops)) e).
 Proof. exact (same_as_fresh_all facts (eq_refl true)). Qed.
 Print Assumptions C08_current_code.
+
+(* ---- "and the rest": the evaluators computed from a compiled evaluator and the shape helper (sensitivity,
+   ode_and_sensitivity, ode_and_sensitivityIV, their Jacobians, forward-forward); CanaryComp.v ---- *)
+
+(* with a shape helper that follows the model's current sizes they inherit the property, for every good fact table *)
+Theorem C08_rest_same_as_fresh : forall F, good F = true -> forall n0 ops e, reg F e ->
+  snd (comp_eval F true n0 (run F (init F n0) ops) e) = snd (comp_eval F true n0 (run F (init F n0) (strip ops)) e).
+Proof. exact comp_same_as_fresh_all. Qed.
+Print Assumptions C08_rest_same_as_fresh.
+
+(* a helper built once in the constructor violates the statement after a parameter is added (the witness is replayed on
+   pygom by the harness: the genuine defect repaired by 9241b05) *)
+Theorem C08_helper_once_refuted :
+  let F := ideal true true in
+  snd (comp_eval F false 2 (run F (init F 2) grow_ops) "ode") = Err /\
+  snd (comp_eval F true 2 (run F (init F 2) (strip grow_ops)) "ode") = Val [("param_list", 1)] [1; 2; 3]%Z /\
+  snd (comp_eval F true 2 (run F (init F 2) grow_ops) "ode") = Val [("param_list", 1)] [1; 2; 3]%Z.
+Proof. exact helper_once_refuted. Qed.
+Print Assumptions C08_helper_once_refuted.
+
+(* per-run obligation: in the CURRENT source the helper is built from the current sizes *)
+Theorem C08_helper_current : helper_current = true.
+Proof. reflexivity. Qed.
+
+Theorem C08_rest_current_code : forall n0 ops e, reg facts e ->
+  snd (comp_eval facts helper_current n0 (run facts (init facts n0) ops) e)
+  = snd (comp_eval facts helper_current n0 (run facts (init facts n0) (strip ops)) e).
+Proof. exact (comp_same_as_fresh_all facts (eq_refl true)). Qed.
+Print Assumptions C08_rest_current_code.
